@@ -14,6 +14,13 @@ every trie state, collapse level and hash function:
                            bookkeeping lists are empty (no GC pass between commit and rollback; collision-freeness
                            relative to a subtree-closed set S ∋ t0, t1)
   C13_rollbackTrie         the same for RollbackTrie with the checkpoint given as a (hash, weight) reference
+  C13_rollback_after_gc / C13_rollbackTrie_after_gc   the same with ONE DeleteNodes pass between the commit and the
+                           rollback (hypothesis: nothing already staged in `deleted` is a node of the checkpoint — what
+                           the GC invariant of Props/C11 provides): the pass only moves the checkpoint nodes the commit
+                           superseded from tempDeleted to deleted; Rollback / RollbackTrie clear both
+  C13_rollbackTrie_copyRoot   checkpoint taken with CopyRoot(collapse level) on the committed (clean) trie: RollbackTrie
+                           installs the copy, which still represents the checkpoint over the storage (every reference it
+                           holds resolves), with and without the GC pass (`…_after_gc`)
   C13_checkpoint_answers   and the rolled-back trie then answers every block of the checkpoint: owner key, honest proof
                            bytes, proof verifies to (hash t0, owner's value)
   rollback_clears_queues   both entry points forget the rolled-back commit's created / pending-deletion lists
@@ -21,6 +28,7 @@ every trie state, collapse level and hash function:
 -/
 import Verif.Lemmas.WmptOps
 import Verif.Lemmas.WmptRollback
+import Verif.Lemmas.WmptCopyRoot
 import Verif.Lemmas.WmptSpec
 import Verif.Model.WmptHistory
 import Verif.Model.WmptToy
@@ -119,6 +127,79 @@ theorem C13_rollbackTrie (H : Bytes → Bytes) (hlen : ∀ x, (H x).length = 32)
          r.created = [] ∧ r.tempDeleted = [] ∧ r.pending = [] ∧ r.deleted = [])) :=
   rollbackTrie_restores H hlen hcl hinj lvl t t0 t1 hdb hcp hw0 h1 hp hd hS0 hS1
 
+/-- `C13_rollback` with one GC pass between commit and rollback -/
+theorem C13_rollback_after_gc (H : Bytes → Bytes) (hlen : ∀ x, (H x).length = 32) {S : PT → Prop}
+    (hcl : SubClosed S) (hinj : HashInj H S) (lvl : Int) (t : WT) (t0 t1 : PT) (hdb : t.hasDb = true)
+    (hcp : StoredAll H t.store t0) (hold : t.oldRoot = (PT.hash H t0, t0.weight)) (hw0 : 0 < t0.weight)
+    (h1 : RepS H t.store t.root t1) (hp : Proper t.root) (hd : t.root.dirty = true) (hS0 : S t0) (hS1 : S t1)
+    (hq : ∀ k ∈ t.deleted, ∀ x, PT.Sub x t0 → x.isNone = false → k ≠ PT.hash H x) :
+    let c := commit H t lvl
+    let c' : WT := { c.1 with store := c.1.store.apply c.2 }
+    let g := (deleteNodes c').1
+    let r := (rollback g).1
+    r.root = .hashRef (PT.hash H t0) t0.weight ∧ StoredAll H r.store t0 ∧
+      (∀ k ∈ c.1.created, r.store.get k = none) ∧ r.created = [] ∧ r.tempDeleted = [] ∧ r.pending = [] ∧ r.deleted = [] :=
+  rollback_after_gc_restores H hlen hcl hinj lvl t t0 t1 hdb hcp hold hw0 h1 hp hd hS0 hS1 hq
+
+/-- `C13_rollbackTrie` with one GC pass between commit and rollback -/
+theorem C13_rollbackTrie_after_gc (H : Bytes → Bytes) (hlen : ∀ x, (H x).length = 32) {S : PT → Prop}
+    (hcl : SubClosed S) (hinj : HashInj H S) (lvl : Int) (t : WT) (t0 t1 : PT) (hdb : t.hasDb = true)
+    (hcp : StoredAll H t.store t0) (hw0 : 0 < t0.weight)
+    (h1 : RepS H t.store t.root t1) (hp : Proper t.root) (hd : t.root.dirty = true) (hS0 : S t0) (hS1 : S t1)
+    (hq : ∀ k ∈ t.deleted, ∀ x, PT.Sub x t0 → x.isNone = false → k ≠ PT.hash H x) :
+    let c := commit H t lvl
+    let c' : WT := { c.1 with store := c.1.store.apply c.2 }
+    let g := (deleteNodes c').1
+    let r := (rollbackTrie H g (.hashRef (PT.hash H t0) t0.weight)).1
+    StoredAll H r.store t0 ∧
+      ((c'.root.hashField H = PT.hash H t0 ∧ r = g) ∨
+       (r.root = .hashRef (PT.hash H t0) t0.weight ∧ (∀ k ∈ c.1.created, r.store.get k = none) ∧
+         r.created = [] ∧ r.tempDeleted = [] ∧ r.pending = [] ∧ r.deleted = [])) :=
+  rollbackTrie_after_gc_restores H hlen hcl hinj lvl t t0 t1 hdb hcp hw0 h1 hp hd hS0 hS1 hq
+
+/-- checkpoint copy taken with `CopyRoot(collapse0)` on the committed (clean) trie `n0` representing `t0` -/
+theorem C13_rollbackTrie_copyRoot (H : Bytes → Bytes) (hlen : ∀ x, (H x).length = 32) {S : PT → Prop}
+    (hcl : SubClosed S) (hinj : HashInj H S) (lvl : Int) (t : WT) (t0 t1 : PT) {P : PT → Prop} (n0 : WN)
+    (collapse0 : Int)
+    (hdb : t.hasDb = true) (hcp : StoredAll H t.store t0) (hw0 : 0 < t0.weight) (hr0 : Rep H P n0 t0)
+    (hac0 : AllClean n0) (hp0 : Proper n0)
+    (h1 : RepS H t.store t.root t1) (hp : Proper t.root) (hd : t.root.dirty = true) (hS0 : S t0) (hS1 : S t1) :
+    let cp := copyRoot H collapse0 0 n0
+    let c := commit H t lvl
+    let c' : WT := { c.1 with store := c.1.store.apply c.2 }
+    let r := (rollbackTrie H c' cp).1
+    StoredAll H r.store t0 ∧
+      ((n0.hashField H = c'.root.hashField H ∧ r = c') ∨
+       (r.root = cp ∧ RepS H r.store r.root t0 ∧ AllClean r.root ∧ Proper r.root ∧
+         (∀ k ∈ c.1.created, r.store.get k = none) ∧
+         r.created = [] ∧ r.tempDeleted = [] ∧ r.pending = [] ∧ r.deleted = [])) :=
+  rollbackTrie_copyRoot_restores H hlen hcl hinj lvl t t0 t1 n0 collapse0 0 hdb hcp hw0 hr0 hac0 hp0 h1 hp hd hS0 hS1
+
+/-- …and with one GC pass in between (any checkpoint copy `cp` that represents `t0`, in particular a `CopyRoot` copy,
+    see `rep_copyRoot`) -/
+theorem C13_rollbackTrie_copy_after_gc (H : Bytes → Bytes) (hlen : ∀ x, (H x).length = 32) {S : PT → Prop}
+    (hcl : SubClosed S) (hinj : HashInj H S) (lvl : Int) (t : WT) (t0 t1 : PT) {P : PT → Prop} (cp : WN)
+    (hdb : t.hasDb = true) (hcp : StoredAll H t.store t0) (hw0 : 0 < t0.weight) (hrcp : Rep H P cp t0)
+    (h1 : RepS H t.store t.root t1) (hp : Proper t.root) (hd : t.root.dirty = true) (hS0 : S t0) (hS1 : S t1)
+    (hq : ∀ k ∈ t.deleted, ∀ x, PT.Sub x t0 → x.isNone = false → k ≠ PT.hash H x) :
+    let c := commit H t lvl
+    let c' : WT := { c.1 with store := c.1.store.apply c.2 }
+    let g := (deleteNodes c').1
+    let r := (rollbackTrie H g cp).1
+    StoredAll H r.store t0 ∧
+      ((cp.hashField H = c'.root.hashField H ∧ r = g) ∨
+       (r.root = cp ∧ RepS H r.store r.root t0 ∧ (∀ k ∈ c.1.created, r.store.get k = none) ∧
+         r.created = [] ∧ r.tempDeleted = [] ∧ r.pending = [] ∧ r.deleted = [])) :=
+  rollbackTrie_copy_after_gc_restores H hlen hcl hinj lvl t t0 t1 cp hdb hcp hw0 hrcp h1 hp hd hS0 hS1 hq
+
+/-- a `CopyRoot` copy of a clean trie represents the same spec tree (so it qualifies as `cp` above) -/
+theorem copyRoot_represents {H : Bytes → Bytes} {P : PT → Prop} {n : WN} {t : PT} (h : Rep H P n t) (hac : AllClean n)
+    (hp : Proper n) (collapse : Int) :
+    Rep H P (copyRoot H collapse 0 n) t ∧ (copyRoot H collapse 0 n).weight = n.weight ∧
+      (copyRoot H collapse 0 n).hashField H = n.hashField H := by
+  obtain ⟨a, _, _, d, e, _⟩ := rep_copyRoot h hac hp collapse 0
+  exact ⟨a, d, e⟩
+
 set_option maxRecDepth 100000 in
 /-- the collision-freeness hypothesis is satisfiable (it is relative to the nodes of the tries involved): the toy hash
     on the nodes of a one-key trie -/
@@ -147,6 +228,19 @@ example :
     (hrun toyH ops).t.weight = 5 ∧
       sameAnswers toyH (hrun toyH ops).t (reopen toyH (hrun toyH cp).t) ∧
       (hrun toyH ops).t.created = [] ∧ (hrun toyH ops).t.tempDeleted = [] ∧ (hrun toyH ops).t.deleted = [] := by
+  decide
+
+set_option maxRecDepth 1000000 in
+/-- realisable with a `CopyRoot(1)` checkpoint and ONE GC pass between commit and RollbackTrie (toy hash, `decide`) -/
+example :
+    let kA : List Nib := List.replicate 64 1
+    let kD : List Nib := 2 :: List.replicate 63 4
+    let kE : List Nib := 2 :: 5 :: List.replicate 62 4
+    let cpSt := (hrun toyH [.upd kA [1, 0xee] 2, .upd kD [2, 0xee] 3, .upd kE [3] 1, .commit (-1), .gc])
+    let cp := copyRoot toyH 1 0 cpSt.t.root
+    let later := [HOp.upd kA [1, 0xee] 2, .upd kD [9] 1, .del kE, .commit 2, .gc].foldl (hstep toyH) cpSt
+    let r := (rollbackTrie toyH later.t cp).1
+    r.weight = 6 ∧ sameAnswers toyH r (reopen toyH cpSt.t) ∧ r.created = [] ∧ r.tempDeleted = [] ∧ r.deleted = [] := by
   decide
 
 end Verif.Props.C13
